@@ -3,6 +3,8 @@
 package newrelic
 
 import (
+	"context"
+	"net/url"
 	"bytes"
 	"encoding/json"
 	"fmt"
@@ -703,6 +705,10 @@ func vOutcome(s string) collector.RPMResponse {
 	case "200", "202":
 		n, _ := strconv.Atoi(s)
 		return collector.RPMResponse{StatusCode: n}
+	case "nettimeout":
+		// a transport-level failure that IS a time-out (what net/http returns when the client's deadline expires): no HTTP
+		// status was received, so nothing says the data may be sent again
+		return collector.RPMResponse{Err: &url.Error{Op: "Post", URL: "https://collector.example/agent_listener/invoke_raw_method", Err: context.DeadlineExceeded}}
 	case "neterr":
 		return collector.RPMResponse{Err: fmt.Errorf("connection refused")}
 	}
